@@ -31,7 +31,11 @@ RULE = ('one run = one seeded history through a live connection on a DB '
         'the commits; then historical connections are opened at every '
         'transaction in every input form (at= / before= x raw id, id+1, '
         'naive and timezone-aware datetime between two transactions) '
-        'through a small historical pool; while each is open the live '
+        '(in 30 % of the file/mapping runs with a second database of a '
+        'multi-database, written in the same and in separate transactions '
+        'and read through get_connection, points also given as ids of its '
+        'transactions) through a small historical pool; while each is '
+        'open the live '
         'connection keeps '
         'committing and the storage is packed to older times, the '
         'historical connection re-reads across boundaries and cache '
@@ -73,13 +77,24 @@ def gen(seed, tier):
                 out.append(['w', [r.randrange(6)]])
         return out
     nops = r.randint(2, 9)
-    return {'kind': kind, 'ops': ops(nops),
+    # a second database of a multi-database: the historical connection
+    # reaches it through get_connection / cross-database navigation and
+    # must show it at the same point
+    multi = kind in ('file', 'mapping') and r.random() < 0.3
+    the_ops = ops(nops)
+    the_later = ops(r.randint(1, 4))
+    if multi:
+        for lst in (the_ops, the_later):
+            for i in range(len(lst)):
+                if r.random() < 0.4:
+                    lst[i] = ['wx', r.randrange(3), r.random() < 0.4]
+    return {'kind': kind, 'ops': the_ops, 'multi': multi,
             # demo kinds: this many leading operations are committed to
             # the base storage alone, before it is wrapped (the base then
             # has a history of its own that historical points fall into)
             'base_n': r.choice((0, 0, 1, 2, nops // 2, nops))
             if kind.startswith('demo') else 0,
-            'later': ops(r.randint(1, 4)),
+            'later': the_later,
             'pack': r.random() < 0.5,
             'hist_pool': r.choice((1, 2, 3)),
             'hist_timeout': r.choice((1 << 30, 5)),
@@ -104,10 +119,21 @@ def run(case):
             else MappingStorage('base')
         db = dbh.make_db(sim, bk, storage=base, **db_opts)
     else:
+        if case.get('multi'):
+            db_opts = dict(db_opts, databases={}, database_name='main')
         db = dbh.make_db(sim, case['kind'],
                          st_opts={'pack_gc': False}
                          if case['kind'] == 'file' else None, **db_opts)
     st = db.storage
+    aux = None
+    log2 = Log()
+    if case.get('multi'):
+        from ZODB.FileStorage import FileStorage
+        from ZODB.MappingStorage import MappingStorage
+        aux = dbh.make_db(
+            sim, 'x', storage=FileStorage('/sim/Aux.fs')
+            if case['kind'] == 'file' else MappingStorage('aux'),
+            **dict(db_opts, database_name='aux'))
     log = Log()
     viol = []
     keys = []
@@ -166,10 +192,23 @@ def run(case):
                     A.abort()
                     return
                 db.undo(undo_id(cand[op[1] % len(cand)]), A.tm.get())
+            elif k == 'wx' and aux is not None:
+                xroot = A.conn.get_connection('aux').root()
+                n = 'x%d' % op[1]
+                if n in xroot:
+                    xroot[n].token = tok()
+                else:
+                    xroot[n] = objs.Cell(tok())
+                if op[2]:
+                    cs = sorted(n for n in root.keys() if n.startswith('c'))
+                    if cs:
+                        root[cs[0]].token = tok()
             A.commit()
         except UndoError:
             A.abort()
         adopt()
+        if aux is not None:
+            dbh.adopt(log2, aux.storage)
         for n, c in A.root().items():
             if n.startswith('c') and c._p_oid is not None:
                 names[n] = c._p_oid
@@ -215,6 +254,33 @@ def run(case):
                 out[name] = ('missing', oid)
             else:
                 out[name] = dbh.token_of(cb[1].data)
+        return out
+
+    def expected_aux(bound):
+        sb = log2.state_before(b'\0' * 8, bound)
+        if sb is None or sb[1].kind == UNCREATE:
+            return None
+        _, state = objs.decode_record(sb[1].data)
+        out = {}
+        for name, ref in state.get('data', {}).items():
+            if not name.startswith('x'):
+                continue
+            cb = log2.state_before(ref.key[1], bound)
+            if cb is None or cb[1].kind == UNCREATE:
+                out[name] = ('missing', ref.key[1])
+            else:
+                out[name] = dbh.token_of(cb[1].data)
+        return out
+
+    def read_aux(H):
+        out = {}
+        for n, c in H.conn.get_connection('aux').root().items():
+            if not n.startswith('x'):
+                continue
+            try:
+                out[n] = c.token
+            except POSKeyError:
+                out[n] = ('missing', c._p_oid)
         return out
 
     def read(H):
@@ -276,6 +342,14 @@ def run(case):
                                        p64(u64(raw) + 1)))
                         points.append(('before-aware', i, {'before': adt},
                                        raw))
+        if aux is not None:
+            # points given as ids of the *other* database's transactions
+            for i, tid in enumerate(log2.tids()):
+                if tids and tid < tids[-1]:
+                    points.append(('before-raw-aux', i, {'before': tid},
+                                   tid))
+                    points.append(('at-raw-aux', i, {'at': tid},
+                                   p64(u64(tid) + 1)))
         r = random.Random(ctx.subseed(case['seed'], 'points'))
         r.shuffle(points)
         later = list(case['later'])
@@ -312,6 +386,34 @@ def run(case):
                     if got != want:
                         flag('historical-state', '%s: reads %r, the state '
                              'at that point was %r' % (where, got, want))
+                    if aux is not None:
+                        wantx = expected_aux(bound)
+                        if wantx is not None:
+                            try:
+                                gotx = read_aux(H)
+                            except ValueError as e:
+                                # each database refuses points later than
+                                # its own newest transaction ("in the
+                                # future"): by design, also when reached
+                                # from a historical connection
+                                x2 = log2.tids()
+                                if 'future' in str(e) and x2 and \
+                                        bound > p64(u64(x2[-1]) + 1):
+                                    gotx = wantx
+                                    stats['aux_refuses_later_point'] = \
+                                        stats.get('aux_refuses_later_point',
+                                                  0) + 1
+                                else:
+                                    gotx = 'ValueError: %s' % str(e)[:60]
+                            except Exception as e:      # noqa: B902
+                                gotx = '%s: %s' % (type(e).__name__,
+                                                   str(e)[:60])
+                            if gotx != wantx:
+                                flag('historical-state', '%s: database '
+                                     "'aux' reached through the "
+                                     'historical connection reads %r, its '
+                                     'state at that point was %r'
+                                     % (where, gotx, wantx))
                     # live commits and packs in between
                     if later:
                         live(later.pop(0))
@@ -425,6 +527,13 @@ def run(case):
             db.close()
         except Exception:       # noqa: B902
             pass
+        try:
+            if aux is not None:
+                aux.close()
+        except Exception:       # noqa: B902
+            pass
+    if case.get('multi'):
+        stats['multi_database'] = 1
     stats['sim_time_s'] = sim.clock.elapsed()
     stats['kind:' + case['kind']] = 1
     stats['commits'] = len(log.txns)
